@@ -155,7 +155,16 @@ fn stub_family(thorough: bool) -> (VSink, u64) {
             for l in &lists {
                 acc.1 += 1;
                 let leaves: Vec<&Stub> = l.iter().map(|&x| &pool[x]).collect();
-                let m = MergedTimeline::of(leaves.iter().map(|s| (*s).clone()).collect::<Vec<_>>());
+                // `of` takes any IntoIterator: a Vec, a filtered iterator (size hint 0..n), a from_fn iterator (no hint)
+                let owned: Vec<Stub> = leaves.iter().map(|s| (*s).clone()).collect();
+                let m = match acc.1 % 3 {
+                    0 => MergedTimeline::of(owned),
+                    1 => MergedTimeline::of(owned.into_iter().filter(|s| s.tag != i32::MIN)),
+                    _ => {
+                        let mut it = owned.into_iter();
+                        MergedTimeline::of(std::iter::from_fn(move || it.next()))
+                    }
+                };
                 let rank = (3u64 << 60) | (l.len() as u64) << 40 | (i as u64) << 20 | acc.1 & 0xfffff;
                 check_stub_meta(&m, &leaves, "stub-list", rank, &mut acc.0);
             }
@@ -407,7 +416,7 @@ pub fn run(run: Run) -> ! {
     cov.insert("traces_validated_against_impl".into(), json!(acc.evals));
     cov.insert("evaluations".into(), json!(acc.evals));
     cov.insert("distinct_nontrivial".into(), json!(acc.lists - 1));
-    cov.insert("rule".into(), json!(format!("ALL lists of length 0..={maxlen} over a pool of {np} component timelines (property sets {{a}},{{k}},{{a,k}},{{}}; delays 0..1; cycles 1/2,1,2,4; repeat None/Times 0,1,2,3/Infinite/Times(u32::MAX, metadata only); reverse on/off); oracle: merged.update == components applied in order (bit-equal; fresh and dirty targets; union of the components' time grids), same after start_with, all orders agree when property sets are disjoint ({} permuted lists), delay=min, duration=max (inf if any), repeat=largest in None<Times n<Infinite, cycle_duration=Some iff all equal, MergedTimeline::from(t) == t; plus a metadata family of {} lists over 960 stub components (cycle undefined/1/2/1+1ulp/1e-8/5e-8 x delay 0/0.5/2/-8 x duration 1/3/inf/-6/-2 x repeat None/Times 0/Times 3/Times 2^24/Times 2^24+1/Times(u32::MAX-1)/Times(u32::MAX)/Infinite): flat lists, nested merged timelines [[a,b],[c]], [[a],[b,c]] WIDE lists (5..1025 components: a background stub with one other stub at the front, middle or back) and merged timelines overwritten by clone_from (from a longer, shorter or empty list, directly and through an Option slot) with the same oracle; non-trivial = non-empty lists", acc.disjoint_orders, stub_lists)));
+    cov.insert("rule".into(), json!(format!("ALL lists of length 0..={maxlen} over a pool of {np} component timelines (property sets {{a}},{{k}},{{a,k}},{{}}; delays 0..1; cycles 1/2,1,2,4; repeat None/Times 0,1,2,3/Infinite/Times(u32::MAX, metadata only); reverse on/off); oracle: merged.update == components applied in order (bit-equal; fresh and dirty targets; union of the components' time grids), same after start_with, all orders agree when property sets are disjoint ({} permuted lists), delay=min, duration=max (inf if any), repeat=largest in None<Times n<Infinite, cycle_duration=Some iff all equal, MergedTimeline::from(t) == t; plus a metadata family of {} lists over 960 stub components (cycle undefined/1/2/1+1ulp/1e-8/5e-8 x delay 0/0.5/2/-8 x duration 1/3/inf/-6/-2 x repeat None/Times 0/Times 3/Times 2^24/Times 2^24+1/Times(u32::MAX-1)/Times(u32::MAX)/Infinite): flat lists (built from a Vec, a filtered iterator or a from_fn iterator in rotation), nested merged timelines [[a,b],[c]], [[a],[b,c]] WIDE lists (5..1025 components: a background stub with one other stub at the front, middle or back) and merged timelines overwritten by clone_from (from a longer, shorter or empty list, directly and through an Option slot) with the same oracle; non-trivial = non-empty lists", acc.disjoint_orders, stub_lists)));
     cov.insert("exhaustive".into(), json!(true));
     cov.insert("metadata_checks".into(), json!(acc.meta_checks));
     cov.insert("distinct_observed_outcomes_capped".into(), json!(acc.outcomes.len()));
